@@ -19,7 +19,10 @@ package c15
 //	          @b0..@b1  names bound by every root on its own: any kind / shape (scalar with rules, object,
 //	                    array, alias or or-shortcut of deeper names), drawn independently per root
 //	          @i0 / @k0 integer / string scalar types with rules, every root its own (all accept the literal
-//	                    the shared types rule by them); @k0 is the key type of the key shortcuts
+//	                    the shared types rule by them); @k0 is the key type of the key shortcuts: its bindings
+//	                    come from one family per history (strFamilies: plain words, or one of the formats
+//	                    email / uri / uuid / date / datetime), each family ranging over no rule, regex, length,
+//	                    enum, explicit `type` rules incl. the format, const and nullable
 //	pool      one object per (name, text) — so equal definitions of two roots are ONE object — unless it is
 //	          made private to a root; rarely a root defines a shared name on its own
 //	roots     2–4, each its own root text (mostly placing @s0) and its own AddType order
@@ -45,6 +48,7 @@ import (
 
 type hgen struct {
 	r        *rand.Rand
+	fam      strFamily // the string literal ruled by {type: "@k0"} and the bindings of @k0 that accept it
 	keyNo    int
 	order    []string // @s…, then @b…
 	nS       int
@@ -68,13 +72,43 @@ type history struct {
 	stats []string
 }
 
-const (
-	intLit = "2"    // the literal ruled by {type: "@i0"}: every binding of @i0 accepts it
-	strLit = `"ab"` // … by {type: "@k0"}
-)
+const intLit = "2" // the literal ruled by {type: "@i0"}: every binding of @i0 accepts it
+
+// strFamily: the literal ruled by {type: "@k0"} and the string types the roots may bind @k0 to; every binding accepts
+// the literal. @k0 is the key type of the key shortcuts, so the bindings range over everything a string type can carry:
+// no rule, regex, length and enum rules (inline and by name), the explicit `type` rule ("string", "enum", and the
+// FORMAT types email / uri / uuid / date / datetime), const and nullable. Two histories in five use the family of plain
+// words, the others one of the format families: there one root binds the key type to the format, another to a regex
+// or a length rule, a third to an enum, with different examples.
+type strFamily struct {
+	name     string
+	lit      string
+	bindings [][2]string
+}
+
+var strFamilies = []strFamily{
+	{"word", `"ab"`, strBindings}, {"word", `"ab"`, strBindings},
+	{"email", `"tom@cats.org"`, [][2]string{{`"tom@cats.org"`, `type: "email"`}, {`"a@b.c"`, `type: "email"`}, {`"tom@cats.org"`, `const: true, type: "email"`},
+		{`"x+y@host.org"`, `type: "email", nullable: true`}, {`"tom@cats.org"`, `regex: "^[^@]+@[^@]+$"`}, {`"tom@cats.org"`, ""}, {`"a@b.c"`, `type: "string", minLength: 5`},
+		{`"tom@cats.org"`, `type: "enum", enum: ["a@b.c", "tom@cats.org"]`}}},
+	{"uri", `"https://cats.org/tom"`, [][2]string{{`"https://cats.org/tom"`, `type: "uri"`}, {`"http://a.b"`, `type: "uri"`}, {`"https://cats.org/tom"`, `type: "uri", const: true`},
+		{`"ftp://h/p?q#f"`, `nullable: false, type: "uri"`}, {`"https://cats.org/tom"`, `regex: "^https?://"`}, {`"http://a.b"`, "maxLength: 40"}, {`"https://cats.org/tom"`, `type: "string"`},
+		{`"http://a.b"`, `enum: ["http://a.b", "https://cats.org/tom"], type: "enum"`}}},
+	{"uuid", `"550e8400-e29b-41d4-a716-446655440000"`, [][2]string{{`"550e8400-e29b-41d4-a716-446655440000"`, `type: "uuid"`}, {`"urn:uuid:550E8400-E29B-41D4-A716-446655440000"`, `type: "uuid"`},
+		{`"{550e8400-e29b-41d4-a716-446655440000}"`, `type: "uuid", nullable: true`}, {`"550e8400e29b41d4a716446655440000"`, `type: "uuid", const: false`},
+		{`"550e8400-e29b-41d4-a716-446655440000"`, `type: "uuid", const: true`}, {`"550e8400-e29b-41d4-a716-446655440000"`, `regex: "^[0-9a-f-]+$", maxLength: 36`},
+		{`"550e8400-e29b-41d4-a716-446655440000"`, ""}, {`"550e8400-e29b-41d4-a716-446655440000"`, `type: "enum", enum: ["550e8400-e29b-41d4-a716-446655440000"]`}}},
+	{"date", `"2021-12-31"`, [][2]string{{`"2021-12-31"`, `type: "date"`}, {`"2020-02-29"`, `type: "date"`}, {`"2021-12-31"`, `type: "date", const: true`},
+		{`"0001-01-01"`, `nullable: true, type: "date"`}, {`"2021-12-31"`, "minLength: 10, maxLength: 10"}, {`"2000-01-01"`, `regex: "^[0-9]{4}-[0-9]{2}-[0-9]{2}$"`}, {`"2021-12-31"`, ""},
+		{`"2020-02-29"`, `type: "enum", enum: ["2020-02-29", "2021-12-31"]`}, {`"2021-12-31"`, `type: "string", const: true`}}},
+	{"datetime", `"2021-12-31T10:00:00+03:00"`, [][2]string{{`"2021-12-31T10:00:00+03:00"`, `type: "datetime"`}, {`"2020-02-29T12:00:00Z"`, `type: "datetime"`},
+		{`"2021-12-31T10:00:00+03:00"`, `const: true, type: "datetime"`}, {`"2000-01-01T00:00:00.123Z"`, `type: "datetime", nullable: false`}, {`"2021-12-31T10:00:00+03:00"`, `regex: "T"`},
+		{`"2021-12-31T10:00:00+03:00"`, `minLength: 20`}, {`"2021-12-31T10:00:00+03:00"`, `type: "enum", enum: ["2021-12-31T10:00:00+03:00", "ab"]`}}},
+}
 
 var intBindings = [][2]string{{"1", "min: 0"}, {"3", "max: 10"}, {"2", ""}, {"2", "const: true"}, {"3", "enum: @e1"}, {"1", "min: 1, max: 7"}, {"0", "max: 2"}, {"7", `type: "integer"`}}
-var strBindings = [][2]string{{`"cd"`, "enum: @e0"}, {`"ab"`, "minLength: 1"}, {`"abc"`, `regex: "a.*"`}, {`"ba"`, "maxLength: 5"}, {`"ab"`, ""}, {`"zz"`, "minLength: 2"}, {`"a-1"`, `regex: "^[a-z0-9-]+$"`}, {`"q"`, `type: "string"`}}
+var strBindings = [][2]string{{`"cd"`, "enum: @e0"}, {`"ab"`, "minLength: 1"}, {`"abc"`, `regex: "a.*"`}, {`"ba"`, "maxLength: 5"}, {`"ab"`, ""}, {`"zz"`, "minLength: 2"}, {`"a-1"`, `regex: "^[a-z0-9-]+$"`}, {`"q"`, `type: "string"`},
+	{`"cd"`, `type: "enum", enum: @e0`}, {`"ab"`, `enum: ["x", "ab"], type: "enum"`}, {`"ab"`, `type: "string", const: true`}, {`"zz"`, "nullable: true"}, {`"abc"`, `type: "string", regex: "a.*", nullable: false`}, {`"ab"`, `const: true, enum: ["ab", "cd"]`}, {`"ba"`, `const: false`}}
 var scalars = [][2]string{
 	{"1", ""}, {"12", "min: 0"}, {"-3", "max: 10"}, {"7", "min: 1, max: 9"}, {"2", "enum: @e1"}, {"0", "const: true"},
 	{`"ab"`, ""}, {`"ab"`, "enum: @e0"}, {`"abc"`, `regex: "a.*"`}, {`"x-1"`, "minLength: 2"}, {`"a\"b\\ éé"`, ""}, {`"2020-01-01"`, `type: "date"`}, {`"a@b.cd"`, `type: "email"`},
@@ -141,7 +175,7 @@ func (g *hgen) litRule() *tg.Node {
 		cand = append(cand, [2]string{n, intLit})
 	}
 	for _, n := range g.strNames {
-		cand = append(cand, [2]string{n, strLit})
+		cand = append(cand, [2]string{n, g.fam.lit})
 	}
 	if len(cand) == 0 {
 		return g.scalar()
@@ -296,8 +330,12 @@ func genHistory(r *rand.Rand) *history {
 	if r.Intn(5) < 3 {
 		g.strNames = []string{"@k0"}
 	}
+	g.fam = strFamilies[r.Intn(len(strFamilies))]
 	h := &history{}
 	stat := func(s string) { h.stats = append(h.stats, s) }
+	if len(g.strNames) > 0 {
+		stat("h_string_type_family_" + g.fam.name)
+	}
 	// The option KeysAreOptionalByDefault belongs to ONE schema object: every root and every type definition draws its
 	// own setting (one history in three keeps all objects plain); a shared definition keeps its setting under every root.
 	plainHistory := r.Intn(3) == 0
@@ -339,7 +377,7 @@ func genHistory(r *rand.Rand) *history {
 			private[j] = append(private[j], r.Intn(6) == 0)
 		}
 		for _, name := range g.strNames {
-			ro.g.Types = append(ro.g.Types, tg.TypeDef{Name: name, Body: lit(strBindings[r.Intn(len(strBindings))])})
+			ro.g.Types = append(ro.g.Types, tg.TypeDef{Name: name, Body: lit(g.fam.bindings[r.Intn(len(g.fam.bindings))])})
 			private[j] = append(private[j], r.Intn(6) == 0)
 		}
 		ro.g.Root = g.rootBody()
